@@ -345,7 +345,9 @@ fn get_patirion_list_form_s3(
     let partition_list = rt.block_on(async {
         client
             .list_objects_v2()
-            .set_prefix(Some(format!("{}/{}", NUN_S3_PREFIX.to_string(), db_name)))
+            // With the trailing slash: the objects of a database whose name starts with this
+            // database's name (db1, db10) are not this database's partitions
+            .set_prefix(Some(format!("{}/{}/", NUN_S3_PREFIX.to_string(), db_name)))
             .bucket(bucket)
             .send()
             .await
